@@ -230,6 +230,22 @@ func (e *Enc) enterLoop(fr *Frame, li *loopInfo, hb *ssa.BasicBlock, gEntry stri
 		f := e.evalBool(inv.Expr, envH)
 		e.assume(gEntry, f)
 	}
+	// automatic frame invariants: the loop maintains the function's modifies clause
+	if e.rootFoot != nil && !e.rootFoot.all && hH != hPre && !e.loopAll[hb] {
+		for _, key := range sortedKeys(e.loopMods[hb]) {
+			if !frameKey(key) {
+				continue
+			}
+			was := e.hget(fr.entry, key)
+			if fIn := e.frameFormula(e.rootFoot, key, e.hget(hPre, key), was); fIn != "" {
+				e.oblige(&Oblig{Kind: "inv-entry", Base: fmt.Sprintf("frameinv/%s/loop%d/entry", key, ord), Guard: gEntry, Formula: fIn,
+					Pos: li.minPos, Text: "loop keeps " + key + " unchanged outside the modifies clause (entry)"})
+			}
+			if fH := e.frameFormula(e.rootFoot, key, e.hget(hH, key), was); fH != "" {
+				e.assume(gEntry, fH)
+			}
+		}
+	}
 	hs := &headerState{pre: hPre, heap: hH, guard: gEntry}
 	if c != nil {
 		if dc := c.LoopDec[ord]; dc != nil {
@@ -303,6 +319,24 @@ func (e *Enc) closeLoop(fr *Frame, li *loopInfo) {
 			}
 			e.oblige(&Oblig{Kind: "dec", Base: fmt.Sprintf("dec/loop%d", ord), Guard: gAny, Formula: and(parts...), Pos: li.minPos,
 				Text: "decreases " + dc.Text, Props: dc.Tags})
+		}
+	}
+	if e.rootFoot != nil && !e.rootFoot.all && hs.heap != hs.pre && !e.loopAll[hb] {
+		for _, key := range sortedKeys(e.loopMods[hb]) {
+			if !frameKey(key) {
+				continue
+			}
+			was := e.hget(fr.entry, key)
+			var parts []string
+			for _, ed := range edges {
+				if f := e.frameFormula(e.rootFoot, key, e.hget(ed.heap, key), was); f != "" {
+					parts = append(parts, implies(ed.g, f))
+				}
+			}
+			if len(parts) > 0 {
+				e.oblige(&Oblig{Kind: "inv-back", Base: fmt.Sprintf("frameinv/%s/loop%d/preserve", key, ord), Guard: gAny, Formula: and(parts...),
+					Pos: li.minPos, Text: "loop keeps " + key + " unchanged outside the modifies clause (preserve)"})
+			}
 		}
 	}
 	// mod-set discovery for the next fixpoint round
@@ -490,6 +524,20 @@ func (e *Enc) runRoot() {
 		for _, cl := range c.Requires {
 			e.assume("true", e.evalBool(cl.Expr, env))
 		}
+		for _, ln := range c.Lemmas {
+			lm := e.w.findLemma(ln)
+			if lm == nil {
+				e.fatalf("contract uses unknown lemma %s", ln)
+				continue
+			}
+			e.used["lemma:"+ln] = true
+			e.emit(e.lemmaAxiom(lm))
+		}
+	}
+	e.rootFoot = nil
+	if c != nil && c.HasMod {
+		fr.entry = h0
+		e.rootFoot = e.rootFootprint(fr, args)
 	}
 	e.preLen = len(e.body)
 	e.stack = []*ssa.Function{fn}
@@ -533,53 +581,103 @@ func (e *Enc) runFrameRoot(fr *Frame, args []Operand, guard string, heap *Heap) 
 	e.runFrame(fr, args, guard, heap)
 }
 
-// frameObligations: everything outside the declared modifies clause is unchanged.
-func (e *Enc) frameObligations(fr *Frame, r retRec, env *SpecEnv, args []Operand) {
+// rootFootprint evaluates the contract's modifies clause in the entry state.
+func (e *Enc) rootFootprint(fr *Frame, args []Operand) *callEffect {
 	c := e.contract
 	ce := &callEffect{foot: map[string][]string{}}
 	pre := e.newSpecEnv(c.Pkg, fr.entry, fr.entry)
 	for i, p := range fr.fn.Params {
-		pre.bindOperand(p.Name(), args[i], p.Type())
+		if i < len(args) {
+			pre.bindOperand(p.Name(), args[i], p.Type())
+		}
 	}
 	for _, m := range c.Modifies {
 		e.addFootprint(ce, m, pre)
 	}
-	if ce.all {
+	return ce
+}
+
+// frameFormula: key is unchanged between `was` (function entry) and `now` for
+// every object allocated at entry and outside the declared footprint.
+// Returns "" when the key is unconstrained (whole key in the footprint).
+func (e *Enc) frameFormula(ce *callEffect, key, now, was string) string {
+	if ce.all || now == was {
+		return ""
+	}
+	refs := ce.foot[key]
+	for _, x := range refs {
+		if x == "*" {
+			return ""
+		}
+	}
+	if strings.HasPrefix(key, "G|") {
+		return fmt.Sprintf("(= %s %s)", now, was)
+	}
+	e.qn++
+	rv := fmt.Sprintf("r%d!f", e.qn)
+	cond := []string{fmt.Sprintf("(<= %s %s)", rv, e.alloc0)}
+	if arrayIndexSort(e.keySort[key]) == "Int" {
+		for _, x := range refs {
+			cond = append(cond, fmt.Sprintf("(distinct %s %s)", rv, x))
+		}
+	}
+	return fmt.Sprintf("(forall ((%s %s)) (! (=> %s (= (select %s %s) (select %s %s))) :pattern ((select %s %s))))",
+		rv, arrayIndexSort(e.keySort[key]), and(cond...), now, rv, was, rv, now, rv)
+}
+
+func frameKey(key string) bool {
+	return !(key == "$alloc" || strings.HasPrefix(key, "C|") || strings.HasPrefix(key, "D|"))
+}
+
+// frameObligations: everything outside the declared modifies clause is unchanged.
+func (e *Enc) frameObligations(fr *Frame, r retRec, env *SpecEnv, args []Operand) {
+	ce := e.rootFoot
+	if ce == nil || ce.all {
 		return
 	}
 	for _, key := range sortedKeySorts(e.keySort) {
-		if key == "$alloc" || strings.HasPrefix(key, "C|") || strings.HasPrefix(key, "D|") {
+		if !frameKey(key) {
 			continue
 		}
-		now := e.hget(r.heap, key)
-		was := e.hget(fr.entry, key)
-		if now == was {
+		f := e.frameFormula(ce, key, e.hget(r.heap, key), e.hget(fr.entry, key))
+		if f == "" {
 			continue
-		}
-		refs := ce.foot[key]
-		star := false
-		for _, x := range refs {
-			if x == "*" {
-				star = true
-			}
-		}
-		if star {
-			continue
-		}
-		var f string
-		if strings.HasPrefix(key, "G|") {
-			f = fmt.Sprintf("(= %s %s)", now, was)
-		} else {
-			cond := []string{fmt.Sprintf("(<= r!f %s)", e.alloc0)}
-			if arrayIndexSort(e.keySort[key]) == "Int" {
-				for _, x := range refs {
-					cond = append(cond, fmt.Sprintf("(distinct r!f %s)", x))
-				}
-			}
-			f = fmt.Sprintf("(forall ((r!f %s)) (=> %s (= (select %s r!f) (select %s r!f))))", arrayIndexSort(e.keySort[key]), and(cond...), now, was)
 		}
 		o := &Oblig{Kind: "frame", Base: "frame/" + key, Guard: r.guard, Formula: f, Pos: r.pos,
 			Text: "modifies: " + key + " unchanged outside the declared footprint"}
 		e.oblige(o)
 	}
+}
+
+// addrEscapes reports whether the address produced by v may be observed by
+// anything but direct loads, stores and field/index projections.
+func addrEscapes(v ssa.Value) bool {
+	refs := v.Referrers()
+	if refs == nil {
+		return true
+	}
+	for _, r := range *refs {
+		switch x := r.(type) {
+		case *ssa.DebugRef:
+		case *ssa.UnOp:
+			if x.Op != token.MUL {
+				return true
+			}
+		case *ssa.Store:
+			if x.Val == v {
+				return true
+			}
+		case *ssa.FieldAddr:
+			if addrEscapes(x) {
+				return true
+			}
+		case *ssa.IndexAddr:
+			if addrEscapes(x) {
+				return true
+			}
+		default:
+			return true
+		}
+	}
+	return false
 }
